@@ -44,9 +44,7 @@ theorem shouldCopy_eq (k : Str) (v : Option Str) (invalid : List (Nat × List St
         if behaviourOf beh e.1 = bCOPY then .ok true
         else if behaviourOf beh e.1 = bIGNORE then .ok false
         else if behaviourOf beh e.1 = bUNLESS then
-          match v with
-          | none => .error .attributeError
-          | some s => if strip s = defaultProperty k then .ok false else .error (.invalidProperty k)
+          if strip (v.getD []) = defaultProperty k then .ok false else .error (.invalidProperty k)
         else .error (.invalidProperty k) := by
   unfold shouldCopy listedIn behaviourOf
   cases invalid.find? (fun e => e.2.contains k) with
@@ -59,18 +57,14 @@ theorem shouldCopy_not_listed (k : Str) (v : Option Str) (invalid beh) (h : list
 
 theorem shouldCopy_nil (k : Str) (v : Option Str) (beh : List (Nat × Nat)) : shouldCopy k v [] beh = .ok true := rfl
 
-/-- the only errors of `shouldCopy` -/
+/-- the only error of `shouldCopy` -/
 theorem shouldCopy_error (k : Str) (v : Option Str) (invalid beh) (e : CErr)
     (h : shouldCopy k v invalid beh = .error e) :
-    e = .invalidProperty k ∨ (v = none ∧ e = .attributeError) := by
+    e = .invalidProperty k := by
   rw [shouldCopy_eq] at h
   split at h
   · cases h
-  · split_ifs at h
-    · split at h
-      · cases h; exact Or.inr ⟨rfl, rfl⟩
-      · split_ifs at h; cases h; exact Or.inl rfl
-    · cases h; exact Or.inl rfl
+  · split_ifs at h <;> cases h <;> rfl
 
 /-- a listed property whose behaviour is not COPY_ANYWAY is never accepted -/
 theorem shouldCopy_listed_not_true (k : Str) (v : Option Str) (invalid beh) (e)
@@ -78,12 +72,7 @@ theorem shouldCopy_listed_not_true (k : Str) (v : Option Str) (invalid beh) (e)
     shouldCopy k v invalid beh ≠ .ok true := by
   rw [shouldCopy_eq, hl]
   simp only [hb, if_false]
-  split_ifs
-  · simp
-  · split
-    · simp
-    · split_ifs <;> simp
-  · simp
+  split_ifs <;> simp
 
 /-! ### `copyProperties` -/
 
@@ -352,7 +341,9 @@ theorem convertWarps_sm (src : AnySimfile) (h : src.isSSC = false) :
     convertWarps src =
       match beatValuesFromStr (attrGet .smSimfile src.props ['b','p','m','s']),
             beatValuesFromStr (attrGet .smSimfile src.props ['s','t','o','p','s']) with
-      | some b, some s => if hasNegative b || hasNegative s then .error .notImplemented else .ok ()
+      | some b, some s =>
+        if !(valuesParse b && valuesParse s) then .error .valueError
+        else if hasNegative b || hasNegative s then .error .notImplemented else .ok ()
       | _, _ => .error .valueError := by
   unfold convertWarps
   rw [h]
